@@ -270,8 +270,14 @@ pub struct KnownFinding {
     pub description: String,
 }
 
+/// Where corpus, known findings, evidence and replays live (`/verif`; scratch mutant runs point it
+/// elsewhere so that they never touch the real evidence).
+pub fn root() -> String {
+    std::env::var("VCHECK_ROOT").unwrap_or_else(|_| "/verif".to_string())
+}
+
 pub fn load_known() -> Vec<KnownFinding> {
-    let p = "/verif/known_findings.json";
+    let p = &format!("{}/known_findings.json", root());
     match std::fs::read_to_string(p) {
         Ok(s) => {
             #[derive(Deserialize)]
@@ -557,7 +563,7 @@ pub fn run_shard(
 }
 
 fn corpus_files(id: &str) -> Vec<std::path::PathBuf> {
-    let dir = format!("/verif/corpus/{}", id);
+    let dir = format!("{}/corpus/{}", root(), id);
     let mut v: Vec<_> = match std::fs::read_dir(&dir) {
         Ok(rd) => rd
             .filter_map(|e| e.ok())
@@ -618,7 +624,7 @@ pub fn run_check(def: &CheckDef, tier: Tier, seed: u64) -> i32 {
     // 2. generated search in shard processes
     let nshards = (def.shards)(tier).max(1);
     let exe = std::env::current_exe().unwrap();
-    let tmpdir = format!("/verif/harness/target/shards/{}-{}", def.id, std::process::id());
+    let tmpdir = format!("{}/shards-tmp/{}-{}", std::env::var("VCHECK_TMP").unwrap_or_else(|_| "/verif/harness/target".to_string()), def.id, std::process::id());
     let _ = std::fs::create_dir_all(&tmpdir);
     let mut children = Vec::new();
     for sh in 0..nshards {
@@ -662,13 +668,13 @@ pub fn run_check(def: &CheckDef, tier: Tier, seed: u64) -> i32 {
     // 3. verdict
     let mut seen_sig = BTreeSet::new();
     let mut violations = Vec::new();
-    let _ = std::fs::create_dir_all("/verif/replays");
+    let _ = std::fs::create_dir_all(format!("{}/replays", root()));
     for f in &total.failures {
         if !seen_sig.insert(f.violation.signature.clone()) {
             continue;
         }
         let h = hash_value(&f.case);
-        let path = format!("/verif/replays/{}-{:016x}.json", def.id, h);
+        let path = format!("{}/replays/{}-{:016x}.json", root(), def.id, h);
         let rf = ReplayFile {
             property: def.id.to_string(),
             family: f.family.clone(),
@@ -718,8 +724,8 @@ pub fn run_check(def: &CheckDef, tier: Tier, seed: u64) -> i32 {
         "wall_s": wall,
         "violations": violations.len(),
     });
-    let _ = std::fs::create_dir_all("/verif/evidence");
-    let evp = format!("/verif/evidence/{}.json", def.id);
+    let _ = std::fs::create_dir_all(format!("{}/evidence", root()));
+    let evp = format!("{}/evidence/{}.json", root(), def.id);
     if let Err(e) = std::fs::write(&evp, serde_json::to_string_pretty(&evidence).unwrap()) {
         eprintln!("cannot write {}: {}", evp, e);
         return 2;
